@@ -451,6 +451,29 @@ def _run_case_inner(case, seed, V, bad):
             return dict(violations=V, outcome="violation")
         rec = pp.inverse_transform_data(M)
         ok = check_structure(V, bad, work, rec, "inverse_transform_data")
+        # second entry point: the fitted preprocessor is handed the SAME labelled data stored with its dimensions in reverse
+        # order; every value must again come back at its own label
+        if ok:
+            def rev(o):
+                if isinstance(o, xr.Dataset):
+                    return o.map(lambda v: v.transpose(*reversed(v.dims)), keep_attrs=True)
+                return o.transpose(*reversed(o.dims))
+
+            work_T = [rev(o) for o in work] if isinstance(work, list) else rev(work)
+            rec_T = pp.inverse_transform_data(pp.transform(work_T))
+            if check_structure(V, bad, work, rec_T, "inverse_transform_data(transform(re-ordered dims))"):
+                for x, y in zip(_items(rec), _items(rec_T)):
+                    for vn, dx in _vars(x):
+                        dy = y[vn] if vn is not None else y
+                        try:
+                            dy2 = dy.transpose(*dx.dims)
+                            same_labels = all(np.array_equal(np.asarray(dx[d].values, dtype=object), np.asarray(dy2[d].values, dtype=object)) for d in dx.dims if d in dx.coords)
+                            a, b = np.asarray(dx.values), np.asarray(dy2.values)
+                            eq = same_labels and a.shape == b.shape and bool(np.all((np.abs(a - b) <= 1e-9) | (np.isnan(a) & np.isnan(b))))
+                        except Exception as e:  # noqa: BLE001
+                            eq = False
+                        if not eq:
+                            bad("transform_reordered_dims", "data stored with its dimensions in reverse order does not come back at its labels after transform + inverse_transform_data")
         if scaling:
             if ok:
                 for x, y in zip(_items(work), _items(rec)):
